@@ -600,3 +600,16 @@ Fixpoint pev_no_reset_ack (evs : list pev) : bool :=
   end.
 Definition label_no_reset_ack (l : label) : bool :=
   match l with DrvPoll evs => pev_no_reset_ack evs | _ => true end.
+
+(** * A socket send error inside a driver poll ([State::drive_transmit] returning [Err])
+    Since the fix ade9d8a the driver terminates the connection before it exits; before it,
+    [ConnectionDriver::poll] returned with [?]: no [terminate], the events of that poll not
+    forwarded. Both are given as extra steps (not labels of [step]); Proofs/AsyncConnIoError.v
+    shows that the fixed one preserves the invariant and the old one does not. *)
+Definition IO_ERROR : Z := 2.
+Definition drv_io_error (s : st) : st :=
+  if negb (driver_alive s) then s else
+  drop_ref (set_drv (terminate s IO_ERROR) false false false false) false.
+Definition drv_io_error_unfixed (s : st) : st :=
+  if negb (driver_alive s) then s else
+  drop_ref (set_drv s false false false false) false.
